@@ -21,6 +21,7 @@ Z(i)     == [op |-> "z", i |-> i]
 P(i)     == [op |-> "p", i |-> i]
 V(i)     == [op |-> "v", i |-> i]
 QS(i)    == [op |-> "q", i |-> i]
+Inert(a) == [op |-> "inert", a |-> a]
 DX(i)    == [op |-> "dx", i |-> i]      \* inf_der(x_i): only inside grid='inf' constraints
 Tm       == [op |-> "t"]
 TT       == [op |-> "T"]
@@ -66,6 +67,7 @@ Eval(e, env) ==
     [] e.op = "sub" -> Sub(Eval(e.a, env), Eval(e.b, env))
     [] e.op = "mul" -> Mul(Eval(e.a, env), Eval(e.b, env))
     [] e.op = "neg" -> Neg(Eval(e.a, env))
+    [] e.op = "inert" -> Eval(e.a, env)          \* inf_inert(e): e itself, held constant over an integrator step in grid='inf' constraints
     [] e.op = "sq"  -> LET w == Eval(e.a, env) IN Mul(w, w)
 
 EvalVec(es, env) == Tup([i \in 1..Len(es) |-> Eval(es[i], env)])
